@@ -16,7 +16,8 @@ class _DecodeFailed(Exception):
 
 class Cfg:
     def __init__(self, stack="client", key_prefix=b"", default_noreply=True, serde=None,
-                 encoding="ascii", allow_unicode_keys=False, item_max=1 << 20, version=b"1.6.20"):
+                 encoding="ascii", allow_unicode_keys=False, item_max=1 << 20, version=b"1.6.20",
+                 refuse_set=()):
         self.stack = stack
         if isinstance(key_prefix, str):
             key_prefix = key_prefix.encode("ascii")
@@ -27,6 +28,7 @@ class Cfg:
         self.unicode = allow_unicode_keys
         self.item_max = item_max
         self.version = version
+        self.refuse_set = frozenset(refuse_set)   # wire keys for which the server answers `set` with NOT_STORED
 
 
 class ApiModel:
@@ -78,6 +80,7 @@ class ApiModel:
                 self.ambiguous = True
             if self.now() >= it[2]:
                 del self.items[wk]
+                self.expired_seen = getattr(self, "expired_seen", 0) + 1
                 return None
         return it
 
@@ -154,6 +157,8 @@ class ApiModel:
             return "too-large"
         exp = self._exp(expire)
         if verb == "set":
+            if wk in self.cfg.refuse_set:
+                return False
             self._put(wk, data, f, exp)
             return True
         if verb == "add":
